@@ -25,15 +25,18 @@ def main():
         what = m.get("what", "")
         res = "; ".join("%s: %s" % (c, verdict(r)) for c, r in sorted(m.get("checks", {}).items()))
         conf = "suite %s, demo with/without: %s/%s" % (m.get("suite_with_change", "?"), m.get("demo_with_change", "?"), m.get("demo_without_change", "?"))
+        if m.get("status"):
+            res = "[%s: %s] " % (m["status"], m.get("status_note", "")) + res
         rows.append((m["name"], m["property"], what, res, conf))
     lines = ["| change | what it breaks | checks | confirmed |", "|---|---|---|---|"]
     for n, prop, what, res, conf in rows:
         lines.append("| %s | %s | %s | %s |" % (n, what.replace("|", "\\|"), res, conf))
     table = "\n".join(lines)
-    caught = sum(1 for r in rows if "caught" in r[3])
-    noticed = sum(1 for r in rows if "caught" not in r[3] and "noticed" in r[3])
-    missed = len(rows) - caught - noticed
-    head = ("%d seeded changes: %d caught with a concrete failing input, %d noticed without one, %d missed.\n\n" % (len(rows), caught, noticed, missed))
+    special = sum(1 for r in rows if r[3].startswith("["))
+    caught = sum(1 for r in rows if "caught" in r[3] and not r[3].startswith("["))
+    noticed = sum(1 for r in rows if "caught" not in r[3] and "noticed" in r[3] and not r[3].startswith("["))
+    missed = len(rows) - caught - noticed - special
+    head = ("%d seeded changes: %d caught with a concrete failing input, %d noticed without one, %d missed, %d retired / not reachable in the harness's configuration (marked in the table).\n\n" % (len(rows), caught, noticed, missed, special))
     open(os.path.join(VERIF, "seeded", "README.md"), "w").write(
         "# Seeded changes\n\nEach directory: `patch.diff` (the change to /repo), the demonstration test that fails with it and passes "
         "without it, `meta.json` (confirmation in a scratch worktree and the results of the checks run against /repo with the change "
